@@ -3665,4 +3665,179 @@ theorem drop_row_sees_original_sparse' (cols : List Key) (pred : Option Pred) (r
   | error e => rfl
   | ok b => cases b <;> rfl
 
+/-! ## Phase 6: iteration element by element -/
+
+
+theorem sequence_ok_map {α} : ∀ (l : List (Res α)) (xs : List α), sequence l = .ok xs → l = xs.map .ok
+  | [], xs, h => by simp [sequence] at h; subst h; rfl
+  | .error e :: t, xs, h => by simp [sequence] at h
+  | .ok x :: t, xs, h => by
+    simp only [sequence] at h
+    cases hs : sequence t with
+    | error e => simp [hs] at h
+    | ok ys =>
+      simp [hs] at h
+      subst h
+      simp [sequence_ok_map t ys hs]
+
+theorem compressS_map_ok : ∀ (xs : List Val) (sel : List Bool), compressS (xs.map .ok) sel = (compress xs sel).map .ok
+  | [], sel => by simp [compressS, compress]
+  | x :: xs, [] => by simp [compressS, compress]
+  | x :: xs, b :: bs => by
+    cases b <;> simp [compressS, compress, compressS_map_ok xs bs]
+
+theorem dropOneS_map_ok (xs : List Val) (ind : Nat) :
+    dropOneS (xs.map .ok) ind = (xs.take ind ++ xs.drop (ind + 1)).map .ok := by
+  unfold dropOneS
+  rw [← List.map_take, ← List.map_drop]
+  cases h : xs.drop ind with
+  | nil =>
+    have : xs.drop (ind + 1) = [] := by
+      have := List.drop_eq_nil_iff.mp h
+      exact List.drop_eq_nil_iff.mpr (by omega)
+    simp [this]
+  | cons y t =>
+    have : xs.drop (ind + 1) = t := by
+      rw [← List.drop_drop, h]; rfl
+    simp [this]
+
+theorem zipWith_bind_map_ok : ∀ (es : List Enc) (ys : List Val),
+    List.zipWith (fun e x => bindRes e.apply x) es (ys.map .ok) = List.zipWith Enc.apply es ys
+  | [], _ => by simp
+  | _ :: _, [] => by simp
+  | e :: es, y :: ys => by
+    have ih := zipWith_bind_map_ok es ys
+    simp only [List.map_cons, List.zipWith_cons_cons, ih]
+    rfl
+
+theorem stream_of_iter_ok' (r : DRow) : ∀ xs, r.iter = .ok xs → r.stream = xs.map .ok := by
+  induction r with
+  | plain v => intro xs h; simp [DRow.iter] at h; subst h; rfl
+  | lazy c enc hdr m =>
+    intro xs h
+    match enc with
+    | none => simp [DRow.iter] at h; subst h; rfl
+    | some [] => simp [DRow.iter] at h; subst h; rfl
+    | some (e :: es) =>
+      simp only [DRow.iter] at h
+      simp only [DRow.stream]
+      exact sequence_ok_map _ _ h
+  | head r h ih => intro xs hx; exact ih xs (by simpa [DRow.iter] using hx)
+  | encode r es ih =>
+    intro xs hx
+    simp only [DRow.iter] at hx
+    cases hi : r.iter with
+    | error e => simp [hi] at hx
+    | ok ys =>
+      simp only [hi] at hx
+      simp only [DRow.stream, ih ys hi, zipWith_bind_map_ok]
+      exact sequence_ok_map _ _ hx
+  | keep r a b sel d e ih =>
+    intro xs hx
+    simp only [DRow.iter] at hx
+    cases hi : r.iter with
+    | error e => simp [hi] at hx
+    | ok ys =>
+      simp [hi] at hx
+      subst hx
+      simp only [DRow.stream, ih ys hi, compressS_map_ok]
+  | label r i t ih => intro xs hx; exact ih xs (by simpa [DRow.iter] using hx)
+  | dropOne r ind ih =>
+    intro xs hx
+    simp only [DRow.iter] at hx
+    cases hi : r.iter with
+    | error e => simp [hi] at hx
+    | ok ys =>
+      simp [hi] at hx
+      subst hx
+      simp only [DRow.stream, ih ys hi, dropOneS_map_ok]
+
+theorem pull_map_ok : ∀ (n : Nat) (xs : List Val), pull n (xs.map .ok) = (xs.take n, none)
+  | 0, xs => by simp [pull]
+  | n + 1, [] => by simp [pull]
+  | n + 1, x :: xs => by simp [pull, pull_map_ok n xs]
+
+/-- stopping earlier shows a prefix of what stopping later shows -/
+theorem pull_prefix : ∀ (m n : Nat) (s : List (Res Val)), m ≤ n →
+    (pull m s).1 = (pull n s).1.take m ∧ ((pull m s).2 = none ∨ (pull m s).2 = (pull n s).2)
+  | 0, n, s, _ => by simp [pull]
+  | m + 1, 0, s, h => by omega
+  | m + 1, n + 1, [], _ => by simp [pull]
+  | m + 1, n + 1, .error e :: t, _ => by simp [pull]
+  | m + 1, n + 1, .ok x :: t, h => by
+    have := pull_prefix m n t (by omega)
+    simp [pull, this.1]
+    exact this.2
+
+theorem touch_stream (r : DRow) : r.touch.stream = r.stream := by
+  induction r <;> simp_all [DRow.touch, DRow.stream, cell_get_touch]
+
+theorem takeN_of_iter_ok' (r : DRow) (xs : List Val) (h : r.iter = .ok xs) (n : Nat) : r.takeN n = (xs.take n, none) := by
+  simp [DRow.takeN, stream_of_iter_ok' r xs h, pull_map_ok]
+
+theorem partial_iteration' (b : DBase) (stages : List Stage) (e0 e : EagerD) (r : DRow)
+    (hb : eagerBaseD b = .ok e0) (he : eagerD stages e0 = .ok (some e))
+    (hr : buildD stages (baseD b) = .ok (some r)) (n : Nat) :
+    r.takeN n = (e.cells.take n, none) :=
+  takeN_of_iter_ok' r e.cells (dense_ref' b stages e0 e r hb he hr).iter n
+
+theorem partial_iteration_feats' (b : DBase) (stages : List Stage) (k : Key) (t : Option String) (e0 e : EagerD)
+    (hb : eagerBaseD b = .ok e0) (he : eagerD (stages ++ [.label k t]) e0 = .ok (some e)) :
+    ∃ r f ef, buildD (stages ++ [.label k t]) (baseD b) = .ok (some r) ∧ r.feats = .ok f ∧ e.feats = some ef ∧
+      ∀ n, f.takeN n = (ef.cells.take n, none) := by
+  obtain ⟨r, f, ef, v, h1, h2, h3, h4, _⟩ := feats_label_dense' b stages k t e0 e hb he
+  exact ⟨r, f, ef, h1, h2, h3, fun n => takeN_of_iter_ok' f ef.cells h4.iter n⟩
+
+theorem whole_iteration_of_stream' (r : DRow) (xs : List Val) (h : r.iter = .ok xs) :
+    r.takeN r.stream.length = (xs, none) := by
+  have hs := stream_of_iter_ok' r xs h
+  rw [takeN_of_iter_ok' r xs h, hs]; simp
+
+theorem takeN_prefix' (r : DRow) (m n : Nat) (h : m ≤ n) :
+    (r.takeN m).1 = (r.takeN n).1.take m ∧ ((r.takeN m).2 = none ∨ (r.takeN m).2 = (r.takeN n).2) :=
+  pull_prefix m n r.stream h
+
+theorem abandoned_iteration' (r : DRow) (n : Nat) (as : List Acc) :
+    runD (stepTake r n).2 as = runD r as ∧ (stepTake r n).2.takeN = r.takeN := by
+  constructor
+  · simp only [stepTake, runD_eq_map]
+    exact List.map_congr_left (fun a _ => touch_obsD r a)
+  · funext k; simp [stepTake, DRow.takeN, touch_stream]
+
+
+theorem pull_ok_append_error : ∀ (xs : List Val) (e : Err) (t : List (Res Val)) (n : Nat), xs.length < n →
+    pull n (xs.map .ok ++ .error e :: t) = (xs, some e)
+  | [], e, t, n + 1, _ => by simp [pull]
+  | [], e, t, 0, h => by simp at h
+  | x :: xs, e, t, 0, h => by simp at h
+  | x :: xs, e, t, n + 1, h => by
+    have ih := pull_ok_append_error xs e t n (by simpa using h)
+    simp [pull, ih]
+
+theorem dropOneS_take (s : List (Res Val)) (ind : Nat) : ∃ tl, dropOneS s ind = s.take ind ++ tl := ⟨_, rfl⟩
+
+theorem dropOneS_first_error (xs : List Val) (e : Err) (t : List (Res Val)) (ind : Nat) (hl : xs.length ≤ ind) :
+    ∃ t', dropOneS (xs.map .ok ++ .error e :: t) ind = xs.map .ok ++ .error e :: t' := by
+  rcases Nat.lt_or_eq_of_le hl with hlt | heq
+  · obtain ⟨k, hk⟩ : ∃ k, ind = xs.length + (k + 1) := ⟨ind - xs.length - 1, by omega⟩
+    have : (xs.map (Except.ok : Val → Res Val) ++ Except.error e :: t).take ind = xs.map .ok ++ .error e :: t.take k := by
+      rw [hk, List.take_append]; simp [List.take_of_length_le]
+    obtain ⟨tl, htl⟩ := dropOneS_take (xs.map (Except.ok : Val → Res Val) ++ Except.error e :: t) ind
+    rw [htl, this]
+    exact ⟨t.take k ++ tl, by simp⟩
+  · refine ⟨[], ?_⟩
+    unfold dropOneS
+    have h1 : (xs.map (Except.ok : Val → Res Val) ++ Except.error e :: t).take ind = xs.map .ok := by
+      rw [← heq]; simp
+    have h2 : (xs.map (Except.ok : Val → Res Val) ++ Except.error e :: t).drop ind = .error e :: t := by
+      rw [← heq]; simp
+    rw [h1, h2]
+
+theorem feats_iteration_first_error' (r : DRow) (ind : Nat) (xs : List Val) (e : Err) (t : List (Res Val))
+    (h : r.stream = xs.map .ok ++ .error e :: t) (hl : xs.length ≤ ind) (n : Nat) (hn : xs.length < n) :
+    (DRow.dropOne r ind).takeN n = (xs, some e) := by
+  obtain ⟨t', ht⟩ := dropOneS_first_error xs e t ind hl
+  simp only [DRow.takeN, DRow.stream, h, ht]
+  exact pull_ok_append_error xs e t' n hn
+
 end Coba.C13
